@@ -39,6 +39,7 @@ class Gen:
         self.open_sloops, self.open_cloops = [], []
         self.routers, self.listeners, self.lazies = [], [], []
         self.ndefer = 0
+        self.last_defer = None
         self.k = 0
         self.dropped = set()
         self.coal = set()
@@ -126,7 +127,13 @@ class Gen:
         elif kind == "collect" and s:
             n = self.fresh("s"); L.append(f"collect {n} {s} {self.small()} {self.op()}"); self.add_stream(n, self.t(s))
         elif kind in ("defer", "split") and s and self.ndefer < self.p["max_defer"] and not self.t(s):
+            if self.ndefer > 0:
+                # a further deferring primitive only as a chain on the previous one (one event in flight at a time:
+                # the relative order of deferred events of *different* primitives is unspecified, C09)
+                s = self.last_defer
+                if s in self.dropped: return False
             n = self.fresh("s")
+            self.last_defer = n
             L.append(f"defer {n} {s}" if kind == "defer" else f"split {n} {s} {r.randint(0, 4)}")
             self.add_stream(n, self.t(s)); self.ndefer += 1
         elif kind == "switchs" and c and s:
